@@ -40,3 +40,4 @@ func verifMsgQuotedRune(msg string) (rune, bool)          { return 0, false }
 func verifParseYAML(src string) *yaml.Node               { return nil }
 func verifIsNative() bool                              { return false }
 func verifDebug(label string, s string)                 {}
+func verifSetCwd(dir string)                            {}
